@@ -183,13 +183,13 @@ Proof.
       wbind (pop_reference s0) (fun r s1 => WOk (mkTag mk mt (TagRef r) (ref_start r) (ref_end r)) s1)
     | STRING =>
       wbind (pop_value_top s0) (fun v s1 => WOk (mkTag mk mt (TagVal v) (value_start v) (value_end v)) s1)
-    | _ => wbind (pop_token s0) (fun t s1 => WErr t (Expected [IDENT; BOOL; STRING]) s1)
+    | _ => wbind (pop_token s0) (fun t s1 => WErr t (Expected exp_tag) s1)
     end = WOk t s' -> pne s').
   { intros mk mt s0 Hok0 Hl0.
     assert (Hr : wbind (pop_reference s0) (fun r s1 => WOk (mkTag mk mt (TagRef r) (ref_start r) (ref_end r)) s1) = WOk t s' -> pne s').
     { destruct (pop_reference s0) as [r s1|t1 wet1 s1|p|] eqn:Er; try discriminate. cbn [wbind]. intros [= _ <-].
       eapply pop_reference_pne; eauto. }
-    assert (Hd : wbind (pop_token s0) (fun t s1 => WErr (A:=tag) t (Expected [IDENT; BOOL; STRING]) s1) = WOk t s' -> pne s').
+    assert (Hd : wbind (pop_token s0) (fun t s1 => WErr (A:=tag) t (Expected exp_tag) s1) = WOk t s' -> pne s').
     { destruct (pop_token s0); discriminate. }
     destruct (next_type s0); auto.
     unfold pop_value_top. destruct (pop_value (S (length (wrest s0))) 0%N s0) as [v s1|t1 wet1 s1|p|] eqn:Ev; try discriminate.
@@ -202,7 +202,7 @@ Proof.
         wbind (pop_reference s1) (fun r s2 => WOk (mkTag mk (Some t0) (TagRef r) (ref_start r) (ref_end r)) s2)
       | STRING =>
         wbind (pop_value_top s1) (fun v s2 => WOk (mkTag mk (Some t0) (TagVal v) (value_start v) (value_end v)) s2)
-      | _ => wbind (pop_token s1) (fun t s2 => WErr t (Expected [IDENT; BOOL; STRING]) s2)
+      | _ => wbind (pop_token s1) (fun t s2 => WErr t (Expected exp_tag) s2)
       end) = WOk t s' -> pne s').
   { intros mk. rewrite E. cbn [wbind]. apply Hafter; [apply Hst|eapply wstep_live; eauto]. }
   cbv zeta. destruct (next_type s) eqn:En; try exact Hnone; apply Hmark.
